@@ -191,6 +191,17 @@ def run_unit(unit_path, repo=None, rlimit=None, seed=None, threads=4, twins=True
         for t in gt.trusted:
             if t not in g.trusted:
                 g.trusted.append(t)
+    # a lemma of the spec library that fails in a run where something else failed is re-checked on its own: a failing query can disturb
+    # the queries that follow it in the same solver process, and a lemma's verdict must not depend on its neighbours
+    rawfail = [k for k in res.failed if k.startswith('raw:raw::')]
+    if rawfail and len(rawfail) <= 12:
+        for k in rawfail:
+            fn = k[len('raw:raw::'):]
+            rc3, js3, diags3, other3, wall3, cmd3 = run_verus(out_path, rlimit=rlimit, seed=seed, threads=2, extra=('--verify-function', fn, '--verify-root'))
+            vr3 = js3.get('verification-results', {})
+            if vr3 and not vr3.get('encountered-error') and not vr3.get('encountered-vir-error') and vr3.get('verified', 0) >= 1 and vr3.get('errors', 1) == 0:
+                del res.failed[k]
+                res.rlimit_hits = [h for h in res.rlimit_hits if h.get('fn') != 'raw::' + fn]
     # a resource-limit hit decides nothing about any obligation of that function: none of them counts as discharged
     for h in res.rlimit_hits:
         for oid, ob in res.obligations.items():
